@@ -157,6 +157,9 @@ func evalC03(c *engine.Ctx, cs c03Case) {
 			return
 		}
 	}
+	// the holder of the decoded message edits it (every integer complemented, every byte slice overwritten): a
+	// decoder that hands out objects it keeps using shows in the round trips that follow
+	engine.Scribble(&lm2.Payloads)
 	if c.State(engine.Hash64(b)) {
 		c.States++
 		if len(m.P) > 0 {
